@@ -34,7 +34,7 @@ META = dict(
 )
 
 DTYPES = ['f8', 'i4', 'u1', 'c16']
-SHAPES = [(), (3,), (2, 2)]
+SHAPES = [(), (3,), (2, 2), (3,), (2, 3)]
 
 
 class KillNow(Exception):
@@ -82,9 +82,17 @@ def wrap(store, log, ctl):
     return store
 
 
-def mk_batch(tok, b, shape, dtype):
+def mk_batch(tok, b, shape, dtype, layout='C'):
+    """every row of the batch carries the token; for float/complex dtypes entry c of a row additionally carries (c+1)/64 so that
+    a permutation of the ELEMENTS inside a batch (wrong memory order) is visible, not only a permutation of rows"""
     a = np.empty((b,) + shape, dtype=dtype)
     a[...] = tok
+    if np.dtype(dtype).kind in 'fc' and shape:
+        flat = a.reshape(b, -1)
+        flat += (np.arange(flat.shape[1]) + 1) / 64.0
+        a = flat.reshape((b,) + shape)
+    if layout == 'F' and a.ndim >= 2:
+        a = np.asfortranarray(a)               # same values, column-major memory (e.g. a transposed view handed in by the user)
     return a
 
 
@@ -92,8 +100,15 @@ def tokens_of(arr):
     arr = np.asarray(arr)
     flat = arr.reshape(len(arr), -1) if len(arr) else np.zeros((0, 1))
     out = []
+    patterned = arr.dtype.kind in 'fc' and arr.ndim >= 2
     for r in flat:
         v = r[0]
+        if patterned:
+            base = np.floor(np.real(v))
+            if not np.all(r == base + (np.arange(len(r)) + 1) / 64.0):
+                return 'TORN'
+            out.append(int(base))
+            continue
         if not np.all(r == v):
             return 'TORN'
         out.append(int(np.real(v)))
@@ -115,7 +130,7 @@ class Runner:
         try:
             k = op['op']
             if k == 'set':
-                s[op['i']] = mk_batch(op['tok'], self.b, self.shape, self.dtype)
+                s[op['i']] = mk_batch(op['tok'], self.b, self.shape, self.dtype, layout=self.case.get('layout', 'C') if op['tok'] % 2 else 'C')
             elif k == 'del':
                 del s[op['i']]
             elif k == 'clear':
@@ -471,7 +486,7 @@ def gen_cases(ctx, n):
         cases.append(dict(b=2, shape=[], dtype='f8', ops=ops))
     for _ in range(n):
         b = rng.randint(1, 4)
-        cases.append(dict(b=b, shape=list(rng.choice(SHAPES)), dtype=rng.choice(DTYPES), ops=gen_ops(rng, b, 12)))
+        cases.append(dict(b=b, shape=list(rng.choice(SHAPES)), dtype=rng.choice(DTYPES), ops=gen_ops(rng, b, 12), layout=rng.choice(['C', 'F'])))
     return cases
 
 
